@@ -72,7 +72,7 @@ static void mcx_viol(const char * sig, const char * fmt, ...) {
 
 static void mcx_grow(mcx_t * m) {
     size_t ncap = m->cap ? m->cap * 2 : 1024;
-    mc_alive++;
+    mc_alive++; mc_wd_pause = 1;
     m->keys = (unsigned char *) realloc(m->keys, ncap * m->key_size);
     if (m->snap_size) m->snaps = (unsigned char *) realloc(m->snaps, ncap * m->snap_size);
     m->parent = (uint32_t *) realloc(m->parent, ncap * sizeof (uint32_t));
@@ -80,11 +80,13 @@ static void mcx_grow(mcx_t * m) {
     m->depth = (uint8_t *) realloc(m->depth, ncap);
     if (!m->keys || !m->parent || !m->opof || !m->depth || (m->snap_size && !m->snaps)) { fprintf(stderr, "mcx: out of memory\n"); exit(3); }
     m->cap = ncap;
+    mc_wd_pause = 0; mc_alive++;
 }
 
 static void mcx_rehash(mcx_t * m) {
     size_t ntcap = m->tcap ? m->tcap * 2 : 4096, i;
-    uint32_t * nt = (uint32_t *) calloc(ntcap, sizeof (uint32_t));
+    uint32_t * nt = (mc_wd_pause = 1, (uint32_t *) calloc(ntcap, sizeof (uint32_t)));
+    mc_wd_pause = 0; mc_alive++;
     if (!nt) { fprintf(stderr, "mcx: out of memory\n"); exit(3); }
     for (i = 0; i < m->states; i++) {
         uint64_t h = mc_hash(m->keys + i * m->key_size, m->key_size, 0);
